@@ -86,6 +86,10 @@ Definition H160_spec (b : bytes) : bytes := ripemd160 (sha256 b).
 
 Definition spec_expected := expected H_spec H160_spec sec1_decode_fast prim_verify_fast.
 
+(* outside the families the property prescribes no outcome, but whatever the transaction, the index and the scripts, the run
+   ends with a stack or an error (C15_spend_total): anything but PANIC / ABORT matches *)
+Definition no_panic : string := "ERR~*;*".
+
 Definition spec_spend (t : tx) (i : nat) (es : list ext_entry) : string :=
   match nth_error es i, nth_error (inputs t) i with
   | Some (Some amount, Some lockb), Some inp =>
@@ -97,21 +101,21 @@ Definition spec_spend (t : tx) (i : nat) (es : list ext_entry) : string :=
           | (Reject, false) => "ERR~OK:,;*"
           | (AcceptOrReject, true) => "ERR~OK:01,;*"
           | (AcceptOrReject, false) => "ERR~OK:,;*~OK:01,;*"
-          | (Unspecified, _) => "-"
+          | (Unspecified, _) => no_panic
           end
-      | _, _ => "-"
+      | _, _ => no_panic
       end
-  | _, _ => "-"
+  | _, _ => no_panic
   end.
 
 Definition run_spend (txb : bytes) (idx : N) (es : list ext_entry) : string :=
   match tx_from_bytes txb with
   | Panic => out3 "PANIC" "-" "-"
-  | Err => out3 "ERR" "-" "-"
+  | Err => out3 "ERR" no_panic "-"
   | Ok t0 =>
       match apply_ext (inputs t0) es with
       | Panic => out3 "PANIC" "-" "-"
-      | Err => out3 "ERR" "-" "-"
+      | Err => out3 "ERR" no_panic "-"
       | Ok ins =>
           let t := set_inputs t0 ins in
           let i := clamp_idx t idx in
@@ -134,15 +138,24 @@ Fixpoint parse_all {A} (f : string -> option A) (l : list string) : option (list
   | [] => Some []
   | x :: r => match f x, parse_all f r with Some a, Some ar => Some (a :: ar) | _, _ => None end
   end.
-Definition parse_signer (nkeys : nat) (s : string) : option (nat * N) :=
+Definition signer : Type := (nat * N * option privkey)%type.       (* key index, flag byte, nonce of sign_with_k *)
+Definition parse_signer (nkeys : nat) (s : string) : option signer :=
+  let base (a b : string) (k : option privkey) : option signer :=
+    match N_of_dec a, N_of_dec b with
+    | Some ki, Some fl =>
+        if (ki <? N.of_nat nkeys)%N && (fl <? 256)%N && is_sighash fl then Some (N.to_nat ki, fl, k) else None
+    | _, _ => None
+    end in
   match split "." s with
-  | [a; b] => match N_of_dec a, N_of_dec b with
-              | Some ki, Some fl =>
-                  if (ki <? N.of_nat nkeys)%N && (fl <? 256)%N && is_sighash fl then Some (N.to_nat ki, fl) else None
-              | _, _ => None
-              end
+  | [a; b] => base a b None
+  | [a; b; c] => match bytes_of_hex c with
+                 | Some kb => match privkey_from_bytes kb with Ok k => base a b (Some k) | _ => None end
+                 | None => None
+                 end
   | _ => None
   end.
+Definition s_key (s : signer) : nat := fst (fst s).
+Definition s_flag (s : signer) : N := snd (fst s).
 Definition parse_pos (s : string) : option nat :=
   match N_of_dec s with Some n => if (n <? 100000)%N then Some (N.to_nat n) else None | None => None end.
 
@@ -173,7 +186,7 @@ Fixpoint concat_pushes (ds : list bytes) : outcome bytes :=
 (* Script::from_asm_string of hex tokens: every token becomes a push of its bytes (sizes here are 20..73) *)
 Definition asm_push (d : bytes) : bit := BPush d.
 
-Definition build_spend (kind : string) (txb : bytes) (idx : N) (value : N) (sks : list privkey) (signers : list (nat * N))
+Definition build_spend (kind : string) (txb : bytes) (idx : N) (value : N) (sks : list privkey) (signers : list signer)
            (seps : list nat) (rawlock rawsub : bytes) (variant : bool) : outcome string :=
   let pks := map (pubkey_bytes FP) sks in
   let pk0 := match pks with p :: _ => p | [] => [] end in
@@ -203,28 +216,31 @@ Definition build_spend (kind : string) (txb : bytes) (idx : N) (value : N) (sks 
   | Some inp =>
       let inp1 := set_unlocking (set_locking_script (set_satoshis inp value) locking) [] in
       let t1 := set_inputs t0 (set_nth i inp1 (inputs t0)) in
-      let sign_one (s : nat * N) : outcome bytes :=
-        match nth_error sks (fst s) with
-        | Some sk => tx_sign_element FP t1 sk (snd s) i subscript value
+      let sign_one (s : signer) : outcome bytes :=
+        match nth_error sks (s_key s) with
+        | Some sk => match snd s with
+                     | None => tx_sign_element FP t1 sk (s_flag s) i subscript value
+                     | Some ek => tx_sign_with_k_element FP t1 sk ek (s_flag s) i subscript value
+                     end
         | None => Err
         end in
-      do sigs <- (fix go (l : list (nat * N)) : outcome (list bytes) :=
+      do sigs <- (fix go (l : list signer) : outcome (list bytes) :=
                     match l with [] => Ok [] | s :: r => do a <- sign_one s; do ar <- go r; Ok (a :: ar) end) signers;
       do unlocking <-
         (if String.eqb kind "p2pkh" then
            match signers, sigs with
            | s0 :: _, sg0 :: _ =>
-               let pks0 := match nth_error pks (fst s0) with Some p => p | None => [] end in
+               let pks0 := match nth_error pks (s_key s0) with Some p => p | None => [] end in
                if bytes_eqb (hash_160 pks0) (hash_160 pk0) then Ok [asm_push sg0; asm_push pks0] else Err
            | _, _ => Err
            end
          else
-           do ps <- (fix go (l : list (nat * N)) (sg : list bytes) : outcome bytes :=
+           do ps <- (fix go (l : list signer) (sg : list bytes) : outcome bytes :=
                        match l, sg with
                        | s :: r, g :: gr =>
                            do p <- push_bytes_of g;
                            do k <- (if raw && variant then
-                                      push_bytes_of (match nth_error pks (fst s) with Some x => x | None => [] end)
+                                      push_bytes_of (match nth_error pks (s_key s) with Some x => x | None => [] end)
                                     else Ok []);
                            do q <- go r gr; Ok (p ++ k ++ q)
                        | _, _ => Ok []
